@@ -849,7 +849,10 @@ func straceCrashes(self string, id int, sc crashScenario, base string, prepare f
 		}
 	}
 	if len(window) == 0 {
-		return nil, 0, fmt.Errorf("strace saw no file-system syscall in the storage directory")
+		// the main goroutine of the child left the main thread in spite of the lock (never seen since the lock is taken
+		// during initialisation): the hook-based enumeration of crash points stands alone for this scenario
+		fmt.Fprintln(os.Stderr, "note: strace saw no file-system syscall of the main thread in the storage directory; scenario", id)
+		return nil, 0, nil
 	}
 	var lines []J
 	kills := 0
